@@ -34,7 +34,7 @@ def gen_axes(rng):
   shape = rng.choice([[2], [3]]) if rank == 1 else rng.choice([[2, 3], [3, 2], [1, 2]]) if rank == 2 else rng.choice([[2, 3, 1], [1, 2, 3], [2, 1, 2]])
   ax = lambda: rng.choice(list(range(rank + 1)) + [-(k + 1) for k in range(rank + 1)])
   return {'kind': 'axes', 'length': rng.choice([2, 4, 5]), 'shape': shape, 'in_axis': ax(), 'out_axis': ax(), 'var_axis': ax(), 'reverse': rng.random() < 0.3,
-          'c0': rng.randint(-2, 2), 'seed': rng.randint(0, 10 ** 6)}
+          'c0': rng.randint(-2, 2), 'seed': rng.randint(0, 10 ** 6), 'no_cci': rng.random() < 0.4}
 
 
 def gen_case(rng, kind):
